@@ -108,6 +108,32 @@ def named_out(a, x):
     return dict(zip(a.function_range.coord_names, [float(v) for v in a(np.asarray(x))]))
 
 
+def chained_and_near_miss(rng, env):
+    """Extra maps for an environment: one whose domain IS the range of an existing map (so that compose applies),
+    and 'near-miss' twins whose domain differs from that range in exactly one attribute - the system name, the
+    coordinate dtype, one coordinate name, or the order of the names - which compose must refuse."""
+    from nipy.core.api import AffineTransform, CoordinateSystem as CS
+    out = []
+    a = env[int(rng.integers(0, len(env)))]
+    r = a.function_range
+    variants = [("exact", r)]
+    other_dt = np.float64 if np.dtype(r.coord_dtype).kind == "i" else np.int64
+    variants.append(("name", CS(r.coord_names, r.name + "2", r.coord_dtype)))
+    variants.append(("dtype", CS(r.coord_names, r.name, other_dt)))
+    if r.ndim > 1:
+        variants.append(("order", CS(r.coord_names[1:] + r.coord_names[:1], r.name, r.coord_dtype)))
+    variants.append(("one-coordinate", CS(("qq",) + tuple(r.coord_names[1:]), r.name, r.coord_dtype)))
+    picks = [variants[0]] + [variants[int(k)] for k in rng.choice(np.arange(1, len(variants)), size=min(2, len(variants) - 1), replace=False)]
+    for _tag, dom in picks:
+        nout = int(rng.integers(1, 4))
+        names = [n_ for n_ in [str(v) for v in rng.permutation(NAMES)] if n_ not in dom.coord_names][:nout]
+        M = np.zeros((nout + 1, dom.ndim + 1), dtype=np.int64)
+        M[:-1, :] = rng.integers(-3, 4, (nout, dom.ndim + 1))
+        M[-1, -1] = 1
+        out.append(AffineTransform(dom, CS(names, str(rng.choice(SYSNAMES)), dom.coord_dtype), M.astype(dom.coord_dtype)))
+    return out
+
+
 def gen_op(rng, env, maxdim):
     """Returns (coq_op, callable producing impl result, oracle(result) -> None|str, kind)"""
     from nipy.core.reference import coordinate_map as cmod
@@ -125,8 +151,13 @@ def gen_op(rng, env, maxdim):
         for _ in range(k - 1):
             # pick a map whose range matches the domain of the previous one, if any
             cands = [i for i in range(n) if env[i].function_range == env[srcs[-1]].function_domain]
+            # near misses: same number of coordinates but not the same system (name, dtype, a coordinate name or the order differs)
+            near = [i for i in range(n) if env[i].function_range != env[srcs[-1]].function_domain
+                    and env[i].function_range.ndim == env[srcs[-1]].function_domain.ndim]
             if cands and not bad:
                 srcs.append(int(rng.choice(cands)))
+            elif near and rng.random() < 0.7:
+                srcs.append(int(rng.choice(near)))
             else:
                 srcs.append(int(rng.integers(0, n)))
         fs = [env[i] for i in srcs]
@@ -858,6 +889,7 @@ def run(ck):
     pterms, pmetas = [], []
     for p in range(nprog):
         env = [rand_aff(rng, maxdim) for _ in range(int(rng.integers(3, 6)))]
+        env += chained_and_near_miss(rng, env)
         env0 = list(env)
         ops, expected, descr = [], [], []
         for _ in range(int(rng.integers(1, 9))):
